@@ -1000,6 +1000,9 @@ class Interp:
                 return a >= b
         except TypeError:
             return TOP
+        except ValueError:
+            # e.g. dictionaries holding a list on one side and an array on the other: the comparison itself raises
+            raise PathRaise('ValueError', node)
         raise Unsupported(node, 'comparison')
 
     def _ev_Attribute(self, node, env):
